@@ -321,7 +321,7 @@ class OpSet:
                             [{"db": self.dbs[n].path, "mode": "keep", "ops": ops} for (n, g), ops in groups.items()])
         rc, txt, _ = common.run([harness, "ops", req, out], timeout=timeout)
         if rc != 0:
-            raise Infra("harness ops failed (rc=%d): %s" % (rc, txt[-2000:]))
+            raise common.harness_failure(txt)
         res = {r["id"]: r for r in common.read_ndjson(out)}
         if len(res) != len(self.items):
             raise Infra("harness returned %d results for %d operations" % (len(res), len(self.items)))
